@@ -1138,6 +1138,9 @@ def check_C14(tier, seed):
     for n in ['abc', 'x', 'nil', 't', ':kw', 'a-b']:
         add("(list (eq '%s '%s) (eq '%s (intern \"%s\")) (eq (intern \"%s\") (intern \"%s\")) (eq (make-symbol \"%s\") '%s) (eq (make-symbol \"%s\") (make-symbol \"%s\")) (equal (make-symbol \"%s\") '%s))"
             % ((n,) * 12), '(t t t nil nil nil)' if n not in ('nil', 't') else None, 'symbols')
+    for n in ['a', 'g0', 'x-y']:
+        add("(let ((u (make-symbol \"%s\"))) (list (equal (cons 1 u) (cons 1 '%s)) (equal (list u) (list '%s)) (equal (list 1 2 u) (list 1 2 '%s)) (equal (cons 1 u) (cons 1 u)) (equal (cons u 1) (cons '%s 1)) (equal (cons 1 (cons 2 u)) '(1 2 . %s))))"
+            % ((n,) * 6), '(nil nil nil t nil nil)', 'symbols')
     add("(let ((g (gensym))) (list (eq g (gensym)) (eq g (intern (prin1-to-string g))) (eq g g)))", '(nil nil t)', 'symbols')
     add("(list (eq nil nil) (eq t t) (eq nil t) (eq 'a 'b) (eq :k :k) (eq :k :j) (eq nil '()) (eq 'a \"a\"))", '(t t nil nil t nil t nil)', 'symbols')
     # hash tables: a finite map keyed by eql
